@@ -1223,7 +1223,7 @@ func c06R13(p *core.Prog, r *core.Report) {
 		lab := labeler{}
 		core.Calls(fn, func(c ssa.CallInstruction) {
 			g := core.CalleeFn(c)
-			if g == nil || canon(g) != "indexSet" {
+			if g == nil || !(canon(g) == "indexSet" || isIndexSetter(g)) {
 				return
 			}
 			n++
@@ -1277,4 +1277,18 @@ func c06R13(p *core.Prog, r *core.Report) {
 	if n == 0 {
 		r.MissingAnchor(rule, "call of the index setter in the layout's index updater")
 	}
+}
+
+// isIndexSetter: by role, the function of the layout scheme that is handed the index to change, the
+// reference and the descriptor to enter (`indexSet`, or whatever its body was moved into).
+func isIndexSetter(g *ssa.Function) bool {
+	if g == nil || g.Pkg == nil || g.Pkg.Pkg.Path() != modPath(ocidirRel) || g.Object() == nil || g.Object().Exported() {
+		return false
+	}
+	ps := g.Signature.Params()
+	if ps.Len() != 3 {
+		return false
+	}
+	pt, ok := ps.At(0).Type().Underlying().(*types.Pointer)
+	return ok && core.IsModNamed(pt.Elem(), "types/oci/v1", "Index") && core.IsModNamed(ps.At(1).Type(), "types/ref", "Ref") && core.IsModNamed(ps.At(2).Type(), "types/descriptor", "Descriptor")
 }
